@@ -18,6 +18,7 @@ CONSTANTS
   EmitMod = 1
   Script <- ScriptNone
   ScriptRows <- RowsNone
+  ScriptSeqs <- SeqsNone
 INIT MCInit
 NEXT MCNext
 VIEW View
